@@ -1,0 +1,995 @@
+/*!
+Verification hooks.
+
+This module is only compiled with `RUSTFLAGS="--cfg decstr_verif"`. It exposes thin wrappers with plain
+argument and result types around crate-internal functions, instantiated at the buffer types the crate
+uses, so that an external harness can call them directly on in-contract *and* out-of-contract arguments
+and observe `value | panic`.
+
+The wrappers add no behaviour: no argument checks, no `catch_unwind`. The outer `Option` every wrapper
+returns only says whether the request could be *shaped* for the chosen instantiation (`None`: unknown type
+name, or a byte string whose length the chosen fixed-size buffer cannot have, or an exponent the chosen
+exponent type cannot represent). Everything else, including panics, is the wrapped function's own.
+
+Type names (`ty`): `b32 b64 b128` = `FixedBinaryBuf<4|8|16, i32>`, `fix<N>` = `FixedBinaryBuf<N, i32>` for the
+sizes listed in `with_ty!`, `dyn` = `DynamicBinaryBuf<20>`, `big` = `ArbitrarySizedBinaryBuf` (feature
+`arbitrary-precision`).
+*/
+
+#![allow(missing_docs, clippy::all, dead_code)]
+
+extern crate alloc;
+
+use alloc::{
+    string::{
+        String,
+        ToString,
+    },
+    vec,
+    vec::Vec,
+};
+use core::str;
+
+use crate::{
+    binary::{
+        self,
+        BinaryBuf,
+        BinaryExponent,
+        DynamicBinaryBuf,
+        FixedBinaryBuf,
+        MostSignificantDigit,
+    },
+    convert,
+    num::{
+        Float,
+        Integer,
+    },
+    text::{
+        ArrayTextBuf,
+        DecimalParser,
+        FiniteParser,
+        InfinityParser,
+        NanParser,
+        ParsedDecimal,
+        ParsedDecimalPoint,
+        ParsedExponent,
+        ParsedFinite,
+        ParsedInfinity,
+        ParsedNan,
+        ParsedNanHeader,
+        ParsedSignificand,
+        StrTextBuf,
+        TextBuf,
+        TextWriter,
+    },
+    ParseError,
+};
+
+#[cfg(feature = "arbitrary-precision")]
+use crate::{
+    binary::ArbitrarySizedBinaryBuf,
+    text::VecTextBuf,
+};
+#[cfg(feature = "arbitrary-precision")]
+use num_bigint::BigInt;
+
+// ---------------------------------------------------------------------------------------------
+// Instantiation
+
+/// How the harness builds a buffer of a concrete type holding given bytes, and an exponent of its type.
+trait HookBuf: BinaryBuf + Sized {
+    fn with_bytes(bytes: &[u8]) -> Option<Self>;
+    fn exponent(e: i128) -> Option<Self::Exponent>;
+}
+
+impl<const N: usize> HookBuf for FixedBinaryBuf<N, i32> {
+    fn with_bytes(bytes: &[u8]) -> Option<Self> {
+        Some(FixedBinaryBuf::from_le_bytes(<[u8; N]>::try_from(bytes).ok()?))
+    }
+
+    fn exponent(e: i128) -> Option<i32> {
+        i32::try_from(e).ok()
+    }
+}
+
+impl HookBuf for DynamicBinaryBuf<20> {
+    fn with_bytes(bytes: &[u8]) -> Option<Self> {
+        let mut buf = Self::try_with_at_least_storage_width_bytes(bytes.len()).ok()?;
+        buf.bytes_mut().copy_from_slice(bytes);
+        Some(buf)
+    }
+
+    fn exponent(e: i128) -> Option<Self::Exponent> {
+        Some(Integer::from_i32(i32::try_from(e).ok()?))
+    }
+}
+
+#[cfg(feature = "arbitrary-precision")]
+impl HookBuf for ArbitrarySizedBinaryBuf {
+    fn with_bytes(bytes: &[u8]) -> Option<Self> {
+        let mut buf = Self::try_with_at_least_storage_width_bytes(bytes.len()).ok()?;
+        buf.bytes_mut().copy_from_slice(bytes);
+        Some(buf)
+    }
+
+    fn exponent(e: i128) -> Option<Self::Exponent> {
+        Integer::try_from_ascii(e < 0, e.unsigned_abs().to_string().bytes())
+    }
+}
+
+macro_rules! with_ty {
+    ($ty:expr, $D:ident => $body:expr) => {
+        match $ty {
+            "b32" | "fix4" => { type $D = FixedBinaryBuf<4, i32>; $body }
+            "b64" | "fix8" => { type $D = FixedBinaryBuf<8, i32>; $body }
+            "b128" | "fix16" => { type $D = FixedBinaryBuf<16, i32>; $body }
+            "fix0" => { type $D = FixedBinaryBuf<0, i32>; $body }
+            "fix1" => { type $D = FixedBinaryBuf<1, i32>; $body }
+            "fix2" => { type $D = FixedBinaryBuf<2, i32>; $body }
+            "fix3" => { type $D = FixedBinaryBuf<3, i32>; $body }
+            "fix5" => { type $D = FixedBinaryBuf<5, i32>; $body }
+            "fix6" => { type $D = FixedBinaryBuf<6, i32>; $body }
+            "fix7" => { type $D = FixedBinaryBuf<7, i32>; $body }
+            "fix12" => { type $D = FixedBinaryBuf<12, i32>; $body }
+            "fix20" => { type $D = FixedBinaryBuf<20, i32>; $body }
+            "fix24" => { type $D = FixedBinaryBuf<24, i32>; $body }
+            "fix44" => { type $D = FixedBinaryBuf<44, i32>; $body }
+            "fix48" => { type $D = FixedBinaryBuf<48, i32>; $body }
+            "fix52" => { type $D = FixedBinaryBuf<52, i32>; $body }
+            "fix56" => { type $D = FixedBinaryBuf<56, i32>; $body }
+            "fix60" => { type $D = FixedBinaryBuf<60, i32>; $body }
+            "fix64" => { type $D = FixedBinaryBuf<64, i32>; $body }
+            "fix76" => { type $D = FixedBinaryBuf<76, i32>; $body }
+            "dyn" => { type $D = DynamicBinaryBuf<20>; $body }
+            #[cfg(feature = "arbitrary-precision")]
+            "big" => { type $D = ArbitrarySizedBinaryBuf; $body }
+            _ => None,
+        }
+    };
+}
+
+macro_rules! with_int {
+    ($int:expr, $I:ident => $body:expr) => {
+        match $int {
+            "i8" => { type $I = i8; $body }
+            "i16" => { type $I = i16; $body }
+            "i32" => { type $I = i32; $body }
+            "i64" => { type $I = i64; $body }
+            "i128" => { type $I = i128; $body }
+            "u8" => { type $I = u8; $body }
+            "u16" => { type $I = u16; $body }
+            "u32" => { type $I = u32; $body }
+            "u64" => { type $I = u64; $body }
+            "u128" => { type $I = u128; $body }
+            _ => None,
+        }
+    };
+}
+
+fn exponent_text<E: Integer>(e: &E) -> String {
+    e.as_display().to_string()
+}
+
+// ---------------------------------------------------------------------------------------------
+// significand.rs
+
+fn enc_sig<D: HookBuf>(bytes: &[u8], chunks: &[&[u8]]) -> Option<(Vec<u8>, u8)> {
+    let mut buf = D::with_bytes(bytes)?;
+
+    let msd = match *chunks {
+        [a] => binary::encode_significand_trailing_digits(&mut buf, [a]),
+        [a, b] => binary::encode_significand_trailing_digits(&mut buf, [a, b]),
+        [a, b, c] => binary::encode_significand_trailing_digits(&mut buf, [a, b, c]),
+        _ => return None,
+    };
+
+    Some((buf.bytes().to_vec(), msd.get_bcd()))
+}
+
+/// `encode_significand_trailing_digits(&mut buf, [chunks..])` with 1, 2 or 3 chunks: (bytes, msd as BCD)
+pub fn encode_significand_trailing_digits(
+    ty: &str,
+    bytes: &[u8],
+    chunks: &[&[u8]],
+) -> Option<(Vec<u8>, u8)> {
+    with_ty!(ty, D => enc_sig::<D>(bytes, chunks))
+}
+
+fn enc_sig_repeat<D: HookBuf>(bytes: &[u8], digit: u8) -> Option<(Vec<u8>, u8)> {
+    let mut buf = D::with_bytes(bytes)?;
+
+    let msd = binary::encode_significand_trailing_digits_repeat(&mut buf, digit);
+
+    Some((buf.bytes().to_vec(), msd.get_bcd()))
+}
+
+/// `encode_significand_trailing_digits_repeat(&mut buf, digit)`: (bytes, msd as BCD)
+pub fn encode_significand_trailing_digits_repeat(
+    ty: &str,
+    bytes: &[u8],
+    digit: u8,
+) -> Option<(Vec<u8>, u8)> {
+    with_ty!(ty, D => enc_sig_repeat::<D>(bytes, digit))
+}
+
+fn dec_declets<D: HookBuf>(bytes: &[u8]) -> Option<Vec<u8>> {
+    let buf = D::with_bytes(bytes)?;
+
+    let mut out = Vec::new();
+    for declet in binary::decode_significand_trailing_declets(&buf) {
+        out.extend_from_slice(&declet);
+    }
+
+    Some(out)
+}
+
+/// `decode_significand_trailing_declets(&buf)` run to the end; the declets concatenated (3 ASCII bytes each)
+pub fn decode_significand_trailing_declets(ty: &str, bytes: &[u8]) -> Option<Vec<u8>> {
+    with_ty!(ty, D => dec_declets::<D>(bytes))
+}
+
+/// `precision_digits(storage_width_bits)`
+pub fn precision_digits(storage_width_bits: usize) -> usize {
+    binary::precision_digits(storage_width_bits)
+}
+
+/// `MostSignificantDigit::from_ascii(digit).get_bcd()`
+pub fn most_significant_digit_from_ascii(digit: u8) -> u8 {
+    MostSignificantDigit::from_ascii(digit).get_bcd()
+}
+
+/// `MostSignificantDigit::from_bcd(digit).get_ascii()`
+pub fn most_significant_digit_from_bcd(digit: u8) -> u8 {
+    MostSignificantDigit::from_bcd(digit).get_ascii()
+}
+
+// ---------------------------------------------------------------------------------------------
+// combination.rs
+
+fn enc_comb<D: HookBuf>(bytes: &[u8], negative: bool, exponent: i128, msd_bcd: u8) -> Option<Vec<u8>> {
+    let mut buf = D::with_bytes(bytes)?;
+    let exponent = D::exponent(exponent)?;
+
+    binary::encode_combination_finite(
+        &mut buf,
+        negative,
+        exponent,
+        MostSignificantDigit::from_bcd(msd_bcd),
+    );
+
+    Some(buf.bytes().to_vec())
+}
+
+/// `encode_combination_finite(&mut buf, negative, exponent, MostSignificantDigit::from_bcd(msd_bcd))`
+pub fn encode_combination_finite(
+    ty: &str,
+    bytes: &[u8],
+    negative: bool,
+    exponent: i128,
+    msd_bcd: u8,
+) -> Option<Vec<u8>> {
+    with_ty!(ty, D => enc_comb::<D>(bytes, negative, exponent, msd_bcd))
+}
+
+fn dec_comb<D: HookBuf>(bytes: &[u8]) -> Option<(String, u8)> {
+    let buf = D::with_bytes(bytes)?;
+
+    let (exponent, msd) = binary::decode_combination_finite(&buf);
+
+    Some((exponent_text(&exponent), msd.get_bcd()))
+}
+
+/// `decode_combination_finite(&buf)`: (unbiased exponent in decimal, msd as BCD)
+pub fn decode_combination_finite(ty: &str, bytes: &[u8]) -> Option<(String, u8)> {
+    with_ty!(ty, D => dec_comb::<D>(bytes))
+}
+
+fn enc_inf<D: HookBuf>(bytes: &[u8], negative: bool) -> Option<Vec<u8>> {
+    let mut buf = D::with_bytes(bytes)?;
+
+    binary::encode_combination_infinity(&mut buf, negative);
+
+    Some(buf.bytes().to_vec())
+}
+
+/// `encode_combination_infinity(&mut buf, negative)`
+pub fn encode_combination_infinity(ty: &str, bytes: &[u8], negative: bool) -> Option<Vec<u8>> {
+    with_ty!(ty, D => enc_inf::<D>(bytes, negative))
+}
+
+fn enc_nan<D: HookBuf>(bytes: &[u8], negative: bool, signaling: bool) -> Option<Vec<u8>> {
+    let mut buf = D::with_bytes(bytes)?;
+
+    binary::encode_combination_nan(&mut buf, negative, signaling);
+
+    Some(buf.bytes().to_vec())
+}
+
+/// `encode_combination_nan(&mut buf, negative, signaling)`
+pub fn encode_combination_nan(
+    ty: &str,
+    bytes: &[u8],
+    negative: bool,
+    signaling: bool,
+) -> Option<Vec<u8>> {
+    with_ty!(ty, D => enc_nan::<D>(bytes, negative, signaling))
+}
+
+fn classify_one<D: HookBuf>(bytes: &[u8], which: &str) -> Option<bool> {
+    let buf = D::with_bytes(bytes)?;
+
+    Some(match which {
+        "finite" => binary::is_finite(&buf),
+        "infinite" => binary::is_infinite(&buf),
+        "nan" => binary::is_nan(&buf),
+        "quiet_nan" => binary::is_quiet_nan(&buf),
+        "signaling_nan" => binary::is_signaling_nan(&buf),
+        "sign_negative" => binary::is_sign_negative(&buf),
+        _ => return None,
+    })
+}
+
+/// one of `is_finite is_infinite is_nan is_quiet_nan is_signaling_nan is_sign_negative` (`which` without `is_`)
+pub fn classify(ty: &str, bytes: &[u8], which: &str) -> Option<bool> {
+    with_ty!(ty, D => classify_one::<D>(bytes, which))
+}
+
+// ---------------------------------------------------------------------------------------------
+// exponent.rs / buf.rs
+
+/// `emax::<N>(storage_width_bits)` for `N` = `i32` or `big` (`BigInt`), in decimal
+pub fn emax(exponent_ty: &str, storage_width_bits: usize) -> Option<String> {
+    match exponent_ty {
+        "i32" => Some(exponent_text(&binary::emax::<i32>(storage_width_bits))),
+        #[cfg(feature = "arbitrary-precision")]
+        "big" => Some(exponent_text(&binary::emax::<BigInt>(storage_width_bits))),
+        _ => None,
+    }
+}
+
+/// `emin::<N>(storage_width_bits)`
+pub fn emin(exponent_ty: &str, storage_width_bits: usize) -> Option<String> {
+    match exponent_ty {
+        "i32" => Some(exponent_text(&binary::emin::<i32>(storage_width_bits))),
+        #[cfg(feature = "arbitrary-precision")]
+        "big" => Some(exponent_text(&binary::emin::<BigInt>(storage_width_bits))),
+        _ => None,
+    }
+}
+
+/// `bias::<N>(storage_width_bits, precision_digits)`
+pub fn bias(exponent_ty: &str, storage_width_bits: usize, precision_digits: usize) -> Option<String> {
+    match exponent_ty {
+        "i32" => Some(exponent_text(&binary::bias::<i32>(
+            storage_width_bits,
+            precision_digits,
+        ))),
+        #[cfg(feature = "arbitrary-precision")]
+        "big" => Some(exponent_text(&binary::bias::<BigInt>(
+            storage_width_bits,
+            precision_digits,
+        ))),
+        _ => None,
+    }
+}
+
+fn add_bias_in<D: HookBuf>(bytes: &[u8], exponent: i128) -> Option<String> {
+    let buf = D::with_bytes(bytes)?;
+    let exponent = D::exponent(exponent)?;
+
+    Some(exponent_text(&exponent.bias(&buf)))
+}
+
+/// `exponent.bias(&buf)` (`add_bias`)
+pub fn add_bias(ty: &str, bytes: &[u8], exponent: i128) -> Option<String> {
+    with_ty!(ty, D => add_bias_in::<D>(bytes, exponent))
+}
+
+fn sub_bias_in<D: HookBuf>(bytes: &[u8], exponent: i128) -> Option<String> {
+    let buf = D::with_bytes(bytes)?;
+    let exponent = D::exponent(exponent)?;
+
+    Some(exponent_text(&exponent.unbias(&buf)))
+}
+
+/// `exponent.unbias(&buf)` (`sub_bias`)
+pub fn sub_bias(ty: &str, bytes: &[u8], exponent: i128) -> Option<String> {
+    with_ty!(ty, D => sub_bias_in::<D>(bytes, exponent))
+}
+
+fn emax_of_in<D: HookBuf>(bytes: &[u8], min: bool) -> Option<String> {
+    let buf = D::with_bytes(bytes)?;
+
+    Some(if min {
+        exponent_text(&<D::Exponent as BinaryExponent>::emin(&buf))
+    } else {
+        exponent_text(&<D::Exponent as BinaryExponent>::emax(&buf))
+    })
+}
+
+/// `<D::Exponent>::emax(&buf)` / `<D::Exponent>::emin(&buf)`
+pub fn emax_of(ty: &str, bytes: &[u8], min: bool) -> Option<String> {
+    with_ty!(ty, D => emax_of_in::<D>(bytes, min))
+}
+
+fn geometry_in<D: HookBuf>(bytes: &[u8], which: &str) -> Option<usize> {
+    let buf = D::with_bytes(bytes)?;
+
+    Some(match which {
+        "storage_width_bits" => buf.storage_width_bits(),
+        "precision_digits" => buf.precision_digits(),
+        "trailing_significand_digits" => buf.trailing_significand_digits(),
+        "trailing_significand_width_bits" => buf.trailing_significand_width_bits(),
+        "combination_width_bits" => buf.combination_width_bits(),
+        "exponent_width_bits" => buf.exponent_width_bits(),
+        "trailing_exponent_width_bits" => buf.trailing_exponent_width_bits(),
+        _ => return None,
+    })
+}
+
+/// one of the provided methods of `BinaryBuf` (`which` = the method's name)
+pub fn geometry(ty: &str, bytes: &[u8], which: &str) -> Option<usize> {
+    with_ty!(ty, D => geometry_in::<D>(bytes, which))
+}
+
+/// `minimum_storage_width_bits_for_precision_digits(precision_digits)`
+pub fn minimum_storage_width_bits_for_precision_digits(precision_digits: usize) -> usize {
+    binary::minimum_storage_width_bits_for_precision_digits(precision_digits)
+}
+
+/// `minimum_storage_width_bits_for_integer_exponent::<N>(exponent)` for `N` = `i32` or `big`
+pub fn minimum_storage_width_bits_for_integer_exponent(
+    exponent_ty: &str,
+    exponent: i128,
+) -> Option<usize> {
+    match exponent_ty {
+        "i32" => Some(binary::minimum_storage_width_bits_for_integer_exponent(
+            i32::try_from(exponent).ok()?,
+        )),
+        #[cfg(feature = "arbitrary-precision")]
+        "big" => Some(binary::minimum_storage_width_bits_for_integer_exponent(
+            BigInt::from(exponent),
+        )),
+        _ => None,
+    }
+}
+
+fn with_precision_in<D: HookBuf>(
+    integer_digits: usize,
+    exponent: Option<i128>,
+) -> Option<Result<Vec<u8>, String>> {
+    let exponent = match exponent {
+        Some(e) => Some(D::exponent(e)?),
+        None => None,
+    };
+
+    Some(
+        D::try_with_at_least_precision(integer_digits, exponent.as_ref())
+            .map(|buf| buf.bytes().to_vec())
+            .map_err(|e| e.to_string()),
+    )
+}
+
+/// `D::try_with_at_least_precision(integer_digits, exponent)`: the bytes of the buffer, or the error's text
+pub fn try_with_at_least_precision(
+    ty: &str,
+    integer_digits: usize,
+    exponent: Option<i128>,
+) -> Option<Result<Vec<u8>, String>> {
+    with_ty!(ty, D => with_precision_in::<D>(integer_digits, exponent))
+}
+
+fn with_bytes_in<D: HookBuf>(bytes: usize, exactly: bool) -> Option<Result<Vec<u8>, String>> {
+    let r = if exactly {
+        D::try_with_exactly_storage_width_bytes(bytes)
+    } else {
+        D::try_with_at_least_storage_width_bytes(bytes)
+    };
+
+    Some(r.map(|buf| buf.bytes().to_vec()).map_err(|e| e.to_string()))
+}
+
+/// `D::try_with_at_least_storage_width_bytes(bytes)` / `D::try_with_exactly_storage_width_bytes(bytes)`
+pub fn try_with_storage_width_bytes(
+    ty: &str,
+    bytes: usize,
+    exactly: bool,
+) -> Option<Result<Vec<u8>, String>> {
+    with_ty!(ty, D => with_bytes_in::<D>(bytes, exactly))
+}
+
+fn exponent_from_ascii_in<D: HookBuf>(negative: bool, ascii: &[u8]) -> Option<Result<String, String>> {
+    Some(
+        D::try_exponent_from_ascii(negative, ascii.iter().copied())
+            .map(|e| exponent_text(&e))
+            .map_err(|e| e.to_string()),
+    )
+}
+
+/// `D::try_exponent_from_ascii(negative, ascii)`
+pub fn try_exponent_from_ascii(
+    ty: &str,
+    negative: bool,
+    ascii: &[u8],
+) -> Option<Result<String, String>> {
+    with_ty!(ty, D => exponent_from_ascii_in::<D>(negative, ascii))
+}
+
+fn encode_max_in<D: HookBuf>(len: usize, negative: bool, min: bool) -> Option<Vec<u8>> {
+    let mut buf = D::with_bytes(&vec![0; len])?;
+
+    if min {
+        binary::encode_min(&mut buf, negative);
+    } else {
+        binary::encode_max(&mut buf, negative);
+    }
+
+    Some(buf.bytes().to_vec())
+}
+
+/// `encode_max(&mut zeroed, negative)` / `encode_min(&mut zeroed, negative)` on a zeroed buffer of `len` bytes
+pub fn encode_max(ty: &str, len: usize, negative: bool, min: bool) -> Option<Vec<u8>> {
+    with_ty!(ty, D => encode_max_in::<D>(len, negative, min))
+}
+
+// ---------------------------------------------------------------------------------------------
+// num.rs
+
+/// `<I as Integer>::try_from_ascii(negative, ascii)`, in decimal
+pub fn integer_try_from_ascii(int: &str, negative: bool, ascii: &[u8]) -> Option<Option<String>> {
+    with_int!(int, I => Some(
+        <I as Integer>::try_from_ascii(negative, ascii.iter().copied()).map(|i| i.to_string())
+    ))
+}
+
+/// `<i32 as Integer>::from_le_bytes(bytes)` / `<BigInt as Integer>::from_le_bytes(bytes)`, in decimal
+pub fn integer_from_le_bytes(exponent_ty: &str, bytes: &[u8]) -> Option<String> {
+    match exponent_ty {
+        "i32" => Some(exponent_text(&<i32 as Integer>::from_le_bytes(
+            bytes.iter().copied(),
+        ))),
+        #[cfg(feature = "arbitrary-precision")]
+        "big" => Some(exponent_text(&<BigInt as Integer>::from_le_bytes(
+            bytes.iter().copied(),
+        ))),
+        _ => None,
+    }
+}
+
+/// `<F as Float>::try_finite_from_ascii(negative, ascii, exponent)` (`num.rs::parse_ascii`): the float's bits
+pub fn float_try_finite_from_ascii(
+    float: &str,
+    negative: bool,
+    ascii: &[u8],
+    exponent: i128,
+) -> Option<Option<u64>> {
+    match float {
+        "f32" => Some(
+            <f32 as Float>::try_finite_from_ascii(negative, ascii.iter().copied(), exponent)
+                .map(|f| f.to_bits() as u64),
+        ),
+        "f64" => Some(
+            <f64 as Float>::try_finite_from_ascii(negative, ascii.iter().copied(), exponent)
+                .map(|f| f.to_bits()),
+        ),
+        _ => None,
+    }
+}
+
+// ---------------------------------------------------------------------------------------------
+// text
+
+/// A `ParsedDecimal` as plain data.
+#[derive(Debug, Clone, PartialEq, Eq)]
+pub struct Parsed {
+    /// `finite`, `infinity` or `nan`
+    pub kind: &'static str,
+    /// `get_ascii()` of the text buffer (empty for infinity)
+    pub ascii: Vec<u8>,
+    /// `is_infinity_negative` / `is_nan_negative` (for a finite number see `significand`)
+    pub negative: bool,
+    /// `is_nan_signaling`
+    pub signaling: bool,
+    /// (`significand_is_negative`, `significand_range`, `decimal_point_range`) of the significand or NaN payload
+    pub significand: Option<(bool, (usize, usize), Option<(usize, usize)>)>,
+    /// (`exponent_is_negative`, `exponent_range`)
+    pub exponent: Option<(bool, (usize, usize))>,
+}
+
+fn plain_significand(s: &ParsedSignificand) -> (bool, (usize, usize), Option<(usize, usize)>) {
+    (
+        s.significand_is_negative,
+        (s.significand_range.start, s.significand_range.end),
+        s.decimal_point
+            .as_ref()
+            .map(|p| (p.decimal_point_range.start, p.decimal_point_range.end)),
+    )
+}
+
+fn plain<B: TextBuf>(parsed: &ParsedDecimal<B>) -> Parsed {
+    match parsed {
+        ParsedDecimal::Finite(f) => Parsed {
+            kind: "finite",
+            ascii: f.finite_buf.get_ascii().to_vec(),
+            negative: false,
+            signaling: false,
+            significand: Some(plain_significand(&f.finite_significand)),
+            exponent: f.finite_exponent.as_ref().map(|e| {
+                (
+                    e.exponent_is_negative,
+                    (e.exponent_range.start, e.exponent_range.end),
+                )
+            }),
+        },
+        ParsedDecimal::Infinity(i) => Parsed {
+            kind: "infinity",
+            ascii: Vec::new(),
+            negative: i.is_infinity_negative,
+            signaling: false,
+            significand: None,
+            exponent: None,
+        },
+        ParsedDecimal::Nan(n) => Parsed {
+            kind: "nan",
+            ascii: n.nan_buf.get_ascii().to_vec(),
+            negative: n.nan_header.is_nan_negative,
+            signaling: n.nan_header.is_nan_signaling,
+            significand: n.nan_payload.as_ref().map(plain_significand),
+            exponent: None,
+        },
+    }
+}
+
+/// One call on a parser.
+#[derive(Debug, Clone, Copy)]
+pub enum Op<'a> {
+    /// `parse_ascii(bytes)`
+    ParseAscii(&'a [u8]),
+    /// `checked_push_significand_digit(digit)` (finite parser only)
+    CheckedPushSignificandDigit(u8),
+    /// `checked_significand_is_negative()` (finite parser only)
+    CheckedSignificandIsNegative,
+    /// `checked_begin_exponent()` (finite parser only)
+    CheckedBeginExponent,
+}
+
+/// `P::begin(buf)`, the calls of `ops` in order up to the first `Err`, then `end()`.
+///
+/// `parser`: `dec` = `DecimalParser`, `fin` = `FiniteParser`, `nan` = `NanParser`, `inf` = `InfinityParser`
+/// (the checked operations exist on `fin` only).
+fn run_parser<B: TextWriter + TextBuf>(
+    parser: &str,
+    buf: B,
+    ops: &[Op],
+) -> Option<Result<ParsedDecimal<B>, ParseError>> {
+    match parser {
+        "dec" => {
+            let mut p = DecimalParser::begin(buf);
+            for op in ops {
+                let r = match *op {
+                    Op::ParseAscii(bytes) => p.parse_ascii(bytes),
+                    _ => return None,
+                };
+                if let Err(e) = r {
+                    return Some(Err(e));
+                }
+            }
+            Some(p.end())
+        }
+        "fin" => {
+            let mut p = FiniteParser::begin(buf);
+            for op in ops {
+                let r = match *op {
+                    Op::ParseAscii(bytes) => p.parse_ascii(bytes),
+                    Op::CheckedPushSignificandDigit(digit) => p.checked_push_significand_digit(digit),
+                    Op::CheckedSignificandIsNegative => p.checked_significand_is_negative(),
+                    Op::CheckedBeginExponent => p.checked_begin_exponent(),
+                };
+                if let Err(e) = r {
+                    return Some(Err(e));
+                }
+            }
+            Some(p.end().map(ParsedDecimal::Finite))
+        }
+        "nan" => {
+            let mut p = NanParser::begin(buf);
+            for op in ops {
+                let r = match *op {
+                    Op::ParseAscii(bytes) => p.parse_ascii(bytes),
+                    _ => return None,
+                };
+                if let Err(e) = r {
+                    return Some(Err(e));
+                }
+            }
+            Some(p.end().map(ParsedDecimal::Nan))
+        }
+        "inf" => {
+            let mut p = InfinityParser::begin(buf);
+            for op in ops {
+                let r = match *op {
+                    Op::ParseAscii(bytes) => p.parse_ascii(bytes),
+                    _ => return None,
+                };
+                if let Err(e) = r {
+                    return Some(Err(e));
+                }
+            }
+            Some(p.end().map(ParsedDecimal::Infinity))
+        }
+        _ => None,
+    }
+}
+
+/// Text buffer kinds: `str` (a `StrTextBuf` over `text`), `vec` (feature `arbitrary-precision`),
+/// `a<N>` = `ArrayTextBuf<N>`.
+macro_rules! with_text_buf {
+    ($kind:expr, $text:expr, $buf:ident => $body:expr) => {
+        match $kind {
+            "str" => { let $buf = StrTextBuf::new(str::from_utf8($text).ok()?); $body }
+            #[cfg(feature = "arbitrary-precision")]
+            "vec" => { let $buf = VecTextBuf::default(); $body }
+            "a0" => { let $buf = ArrayTextBuf::<0>::default(); $body }
+            "a1" => { let $buf = ArrayTextBuf::<1>::default(); $body }
+            "a2" => { let $buf = ArrayTextBuf::<2>::default(); $body }
+            "a3" => { let $buf = ArrayTextBuf::<3>::default(); $body }
+            "a8" => { let $buf = ArrayTextBuf::<8>::default(); $body }
+            "a25" => { let $buf = ArrayTextBuf::<25>::default(); $body }
+            "a32" => { let $buf = ArrayTextBuf::<32>::default(); $body }
+            "a128" => { let $buf = ArrayTextBuf::<128>::default(); $body }
+            _ => None,
+        }
+    };
+}
+
+/// Drive a parser directly: `Ok(parsed)` or the `ParseError`'s text.
+pub fn parse(
+    parser: &str,
+    text_buf: &str,
+    text: &[u8],
+    ops: &[Op],
+) -> Option<Result<Parsed, String>> {
+    with_text_buf!(text_buf, text, buf => Some(
+        run_parser(parser, buf, ops)?
+            .map(|p| plain(&p))
+            .map_err(|e| e.to_string())
+    ))
+}
+
+/// `DecimalParser::parse_str(text)` / `FiniteParser::parse_str(text)`
+pub fn parse_str(parser: &str, text: &str) -> Option<Result<Parsed, String>> {
+    match parser {
+        "dec" => Some(
+            DecimalParser::parse_str(text)
+                .map(|p| plain(&p))
+                .map_err(|e| e.to_string()),
+        ),
+        "fin" => Some(
+            FiniteParser::parse_str(text)
+                .map(|p| plain(&ParsedDecimal::Finite(p)))
+                .map_err(|e| e.to_string()),
+        ),
+        _ => None,
+    }
+}
+
+fn parse_then_convert_in<D: HookBuf>(
+    parser: &str,
+    text_buf: &str,
+    text: &[u8],
+    ops: &[Op],
+) -> Option<Result<Result<Vec<u8>, String>, String>> {
+    with_text_buf!(text_buf, text, buf => Some(
+        match run_parser(parser, buf, ops)? {
+            Ok(parsed) => Ok(convert::decimal_from_parsed::<D, _>(parsed)
+                .map(|d| d.bytes().to_vec())
+                .map_err(|e| e.to_string())),
+            Err(e) => Err(e.to_string()),
+        }
+    ))
+}
+
+/// Drive a parser directly, then `decimal_from_parsed::<D, _>`: outer `Err` = the `ParseError`'s text, inner
+/// `Err` = the `OverflowError`'s text.
+pub fn parse_then_decimal_from_parsed(
+    ty: &str,
+    parser: &str,
+    text_buf: &str,
+    text: &[u8],
+    ops: &[Op],
+) -> Option<Result<Result<Vec<u8>, String>, String>> {
+    with_ty!(ty, D => parse_then_convert_in::<D>(parser, text_buf, text, ops))
+}
+
+fn parse_str_then_convert_in<D: HookBuf>(
+    parser: &str,
+    text: &str,
+) -> Option<Result<Result<Vec<u8>, String>, String>> {
+    let parsed = match parser {
+        "dec" => DecimalParser::parse_str(text),
+        "fin" => FiniteParser::parse_str(text).map(ParsedDecimal::Finite),
+        _ => return None,
+    };
+
+    Some(match parsed {
+        Ok(parsed) => Ok(convert::decimal_from_parsed::<D, _>(parsed)
+            .map(|d| d.bytes().to_vec())
+            .map_err(|e| e.to_string())),
+        Err(e) => Err(e.to_string()),
+    })
+}
+
+/// `decimal_from_parsed::<D, _>(P::parse_str(text)?)` for `P` = `DecimalParser` (`dec`) or `FiniteParser` (`fin`)
+pub fn parse_str_then_decimal_from_parsed(
+    ty: &str,
+    parser: &str,
+    text: &str,
+) -> Option<Result<Result<Vec<u8>, String>, String>> {
+    with_ty!(ty, D => parse_str_then_convert_in::<D>(parser, text))
+}
+
+/// The text buffer the hand-built `ParsedDecimal`s below carry: an `ArrayTextBuf<64>` holding `text`.
+fn raw_text_buf(text: &[u8]) -> Option<ArrayTextBuf<64>> {
+    if text.len() > 64 {
+        return None;
+    }
+
+    let mut buf = ArrayTextBuf::<64>::default();
+    for b in text {
+        buf.advance_significand(*b);
+    }
+
+    Some(buf)
+}
+
+fn from_parsed_in<D: HookBuf, B: TextBuf>(parsed: ParsedDecimal<B>) -> Result<Vec<u8>, String> {
+    convert::decimal_from_parsed::<D, B>(parsed)
+        .map(|d| d.bytes().to_vec())
+        .map_err(|e| e.to_string())
+}
+
+/// `decimal_from_parsed::<D, _>(ParsedDecimal::Finite(..))` on a hand-built value: arbitrary ranges over `text`
+pub fn decimal_from_parsed_finite(
+    ty: &str,
+    text: &[u8],
+    significand_is_negative: bool,
+    significand_range: (usize, usize),
+    decimal_point_range: Option<(usize, usize)>,
+    exponent: Option<(bool, (usize, usize))>,
+) -> Option<Result<Vec<u8>, String>> {
+    let parsed = ParsedDecimal::Finite(ParsedFinite {
+        finite_buf: raw_text_buf(text)?,
+        finite_significand: ParsedSignificand {
+            significand_is_negative,
+            significand_range: significand_range.0..significand_range.1,
+            decimal_point: decimal_point_range.map(|r| ParsedDecimalPoint {
+                decimal_point_range: r.0..r.1,
+            }),
+        },
+        finite_exponent: exponent.map(|(exponent_is_negative, r)| ParsedExponent {
+            exponent_is_negative,
+            exponent_range: r.0..r.1,
+        }),
+    });
+
+    with_ty!(ty, D => Some(from_parsed_in::<D, _>(parsed)))
+}
+
+/// `decimal_from_parsed::<D, _>(ParsedDecimal::Nan(..))` on a hand-built value
+pub fn decimal_from_parsed_nan(
+    ty: &str,
+    text: &[u8],
+    is_nan_negative: bool,
+    is_nan_signaling: bool,
+    payload_range: Option<(usize, usize)>,
+) -> Option<Result<Vec<u8>, String>> {
+    let parsed = ParsedDecimal::Nan(ParsedNan {
+        nan_buf: raw_text_buf(text)?,
+        nan_header: ParsedNanHeader {
+            is_nan_signaling,
+            is_nan_negative,
+        },
+        nan_payload: payload_range.map(|r| ParsedSignificand {
+            significand_is_negative: false,
+            significand_range: r.0..r.1,
+            decimal_point: None,
+        }),
+    });
+
+    with_ty!(ty, D => Some(from_parsed_in::<D, _>(parsed)))
+}
+
+/// `decimal_from_parsed::<D, StrTextBuf>(ParsedDecimal::Infinity(..))`
+pub fn decimal_from_parsed_infinity(ty: &str, is_infinity_negative: bool) -> Option<Result<Vec<u8>, String>> {
+    with_ty!(ty, D => Some(from_parsed_in::<D, StrTextBuf>(ParsedDecimal::Infinity(ParsedInfinity {
+        is_infinity_negative,
+    }))))
+}
+
+// ---------------------------------------------------------------------------------------------
+// convert.rs and convert/*.rs
+
+fn to_fmt_in<D: HookBuf>(bytes: &[u8]) -> Option<Result<String, ()>> {
+    let buf = D::with_bytes(bytes)?;
+
+    let mut out = String::new();
+
+    Some(convert::decimal_to_fmt(&buf, &mut out).map(|()| out).map_err(|_| ()))
+}
+
+/// `decimal_to_fmt(&buf, &mut String)`: the text, or `Err(())` for `fmt::Error`
+pub fn decimal_to_fmt(ty: &str, bytes: &[u8]) -> Option<Result<String, ()>> {
+    with_ty!(ty, D => to_fmt_in::<D>(bytes))
+}
+
+fn to_int_in<D: HookBuf>(bytes: &[u8], int: &str) -> Option<Result<String, String>> {
+    let buf = D::with_bytes(bytes)?;
+
+    with_int!(int, I => Some(
+        convert::decimal_to_int::<D, I>(&buf)
+            .map(|i| i.to_string())
+            .map_err(|e| e.to_string())
+    ))
+}
+
+/// `decimal_to_int::<D, I>(&buf)`: the integer in decimal, or the error's text
+pub fn decimal_to_int(ty: &str, bytes: &[u8], int: &str) -> Option<Result<String, String>> {
+    with_ty!(ty, D => to_int_in::<D>(bytes, int))
+}
+
+fn to_float_in<D: HookBuf>(bytes: &[u8], float: &str) -> Option<Result<u64, String>> {
+    let buf = D::with_bytes(bytes)?;
+
+    match float {
+        "f32" => Some(
+            convert::decimal_to_binary_float::<f32, D>(&buf)
+                .map(|f| f.to_bits() as u64)
+                .map_err(|e| e.to_string()),
+        ),
+        "f64" => Some(
+            convert::decimal_to_binary_float::<f64, D>(&buf)
+                .map(|f| f.to_bits())
+                .map_err(|e| e.to_string()),
+        ),
+        _ => None,
+    }
+}
+
+/// `decimal_to_binary_float::<F, D>(&buf)`: the float's bits, or the error's text
+pub fn decimal_to_binary_float(ty: &str, bytes: &[u8], float: &str) -> Option<Result<u64, String>> {
+    with_ty!(ty, D => to_float_in::<D>(bytes, float))
+}
+
+fn from_int_in<D: HookBuf>(int: &str, value: &str) -> Option<Result<Vec<u8>, String>> {
+    with_int!(int, I => Some(
+        convert::decimal_from_int::<D, I>(value.parse::<I>().ok()?)
+            .map(|d| d.bytes().to_vec())
+            .map_err(|e| e.to_string())
+    ))
+}
+
+/// `decimal_from_int::<D, I>(value)` (`value` in decimal)
+pub fn decimal_from_int(ty: &str, int: &str, value: &str) -> Option<Result<Vec<u8>, String>> {
+    with_ty!(ty, D => from_int_in::<D>(int, value))
+}
+
+fn from_float_in<D: HookBuf>(float: &str, bits: u64) -> Option<Result<Vec<u8>, String>> {
+    match float {
+        "f32" => Some(
+            convert::decimal_from_binary_float::<D, f32>(f32::from_bits(u32::try_from(bits).ok()?))
+                .map(|d| d.bytes().to_vec())
+                .map_err(|e| e.to_string()),
+        ),
+        "f64" => Some(
+            convert::decimal_from_binary_float::<D, f64>(f64::from_bits(bits))
+                .map(|d| d.bytes().to_vec())
+                .map_err(|e| e.to_string()),
+        ),
+        _ => None,
+    }
+}
+
+/// `decimal_from_binary_float::<D, F>(F::from_bits(bits))`
+pub fn decimal_from_binary_float(ty: &str, float: &str, bits: u64) -> Option<Result<Vec<u8>, String>> {
+    with_ty!(ty, D => from_float_in::<D>(float, bits))
+}
